@@ -133,6 +133,7 @@ Section SchedProofs.
     rewrite (map_ext _ (fun w => concat (map (fun i => g (slice rows (nth i ms dummy_morsel))) w)))
       by (intro w; apply worker_stateless; auto).
     eapply perm_trans; [apply (schedule_perm_l (fun i => g (slice rows (nth i ms dummy_morsel))) (length ms) sch Hv)|].
+    Show.
     rewrite <- Hcov at 2. rewrite (stateless_concat ks g H), map_map.
     rewrite <- (map_nth_seq_m ms) at 3. rewrite map_map. reflexivity.
   Qed.
